@@ -4,6 +4,7 @@ C05 — name decomposition and key extraction. Property theorems only.
 import Model.Fmt.Name
 import Model.Proc.Extract
 import Model.Spec.Name
+import Proofs.Lemmas.C05Name
 
 namespace C05
 open Bytes Fmt.Name
@@ -67,5 +68,297 @@ theorem parts_concat (n : Bytes) : (parts n).1 ++ (parts n).2.flatten = n := by
     | some g =>
       simp at h1 ⊢
       rw [← h1, ← hfl]; simp
+
+/-- **parts_eq_spec** — the algorithm of `Name.Parts` (backwards scan for `-N`, forward split at
+'/') computes exactly the specified decomposition, for every byte string. -/
+theorem parts_eq_spec (n : Bytes) : parts n = Spec.Name.decomp n := by
+  unfold parts Spec.Name.decomp
+  rw [splitGomaxprocs_eq_spec]
+  generalize Spec.Name.gmpSplit n = sg
+  obtain ⟨buf, g⟩ := sg
+  simp only
+  rw [splitSlash_eq_spec]
+  cases g <;> simp
+
+/-! ### shape -/
+
+theorem takeWhile_no_slash (b : Bytes) : hasByte (b.takeWhile (· != slash)) slash = false := by
+  induction b with
+  | nil => simp [hasByte]
+  | cons c r ih =>
+    by_cases hc : c = slash
+    · subst hc; simp [hasByte]
+    · simp only [List.takeWhile_cons, bne_iff_ne, ne_eq, hc, not_false_eq_true, decide_true, if_true]
+      simp only [hasByte, List.any_cons] at ih ⊢
+      simp [hc, ih]
+
+theorem T_all_slashSeg (b : Bytes) : (T b).all Spec.Name.isSlashSeg = true := by
+  induction b with
+  | nil => simp [T, splitSlash]
+  | cons c r ih =>
+    rw [T_cons]
+    by_cases hc : c = slash
+    · subst hc
+      simp only [beq_self_eq_true, if_true, List.all_cons, ih, Bool.and_true]
+      simp only [Spec.Name.isSlashSeg, beq_self_eq_true, Bool.true_and, Bool.not_eq_true']
+      exact takeWhile_no_slash r
+    · have : (c == slash) = false := by simpa using hc
+      simp [this, ih]
+
+theorem all_takeWhile (p : UInt8 → Bool) (l : Bytes) : (l.takeWhile p).all p = true := by
+  induction l with
+  | nil => simp
+  | cons a t ih =>
+    simp only [List.takeWhile_cons]
+    split
+    · rename_i h; simp [h, ih]
+    · simp
+
+theorem gmpSplit_gmp (n buf g : Bytes) (h : Spec.Name.gmpSplit n = (buf, some g)) :
+    Spec.Name.isGmpPart g = true := by
+  unfold Spec.Name.gmpSplit at h
+  simp only at h
+  split at h
+  · rename_i c r hr
+    split at h
+    · rename_i hc
+      simp at h
+      obtain ⟨_, rfl⟩ := h
+      simp only [Bool.and_eq_true, Bool.not_eq_true', beq_iff_eq] at hc
+      simp only [Spec.Name.isGmpPart, hc.1, beq_self_eq_true, Bool.true_and, Bool.and_eq_true,
+        Bool.not_eq_true', List.all_reverse]
+      refine ⟨by simpa using hc.2, ?_⟩
+      exact all_takeWhile _ _
+    · simp at h
+  · simp at h
+
+/-- **parts_shape** — the base contains no '/', every part but an optional last one is a
+'/'-introduced segment without further '/', and the optional last one is `-` followed by one or
+more digits. -/
+theorem parts_shape (n : Bytes) : Spec.Name.shapeOK (parts n).1 (parts n).2 = true := by
+  rw [parts_eq_spec]
+  unfold Spec.Name.decomp
+  cases hg : Spec.Name.gmpSplit n with
+  | mk buf g =>
+    simp only
+    have hseg : Spec.Name.segments buf = ((splitSlash buf).headD [], (splitSlash buf).tail) := by
+      rw [splitSlash_eq_spec]; simp
+    rw [hseg, splitSlash_head]
+    simp only [List.headD_cons, List.tail_cons]
+    unfold Spec.Name.shapeOK
+    rw [takeWhile_no_slash]
+    have hall := T_all_slashSeg buf
+    cases g with
+    | none =>
+      simp only [List.append_nil, Bool.not_false, Bool.true_and]
+      cases hl : (T buf).getLast? with
+      | none => rfl
+      | some l =>
+        simp only
+        have hmem : l ∈ T buf := List.mem_of_getLast? hl
+        have h1 : Spec.Name.isSlashSeg l = true := (List.all_eq_true.mp hall) l hmem
+        have h2 : (T buf).dropLast.all Spec.Name.isSlashSeg = true := by
+          rw [List.all_eq_true] at hall ⊢
+          intro x hx; exact hall x (List.dropLast_subset _ hx)
+        simp [h1, h2]
+    | some g =>
+      have hgmp := gmpSplit_gmp n buf g hg
+      simp [hall, hgmp]
+
+end C05
+
+namespace C05
+open Bytes Fmt.Name Proc.Extract
+
+/-! ### keys -/
+
+/-- **fullname_key** — `.fullname` is the whole name. -/
+theorem fullname_key (r : ResView) : extract dotFullname r = .ok r.name := by
+  simp [extract, dotFullname, dotConfig, dotUnit, dotName]
+
+/-- `.name` is `Name.Base`. -/
+theorem name_key_base (r : ResView) : extract dotName r = .ok (base r.name) := by
+  simp [extract, dotFullname, dotConfig, dotUnit, dotName]
+
+/-- **subname_key** — `/k` (any key starting with '/', other than `/gomaxprocs`) is the text after
+`/k=` in the first part carrying that prefix, and empty when there is none. -/
+theorem subname_key (k : Bytes) (r : ResView) (hk : (slash :: k) ≠ gomaxprocsKey) :
+    extract (slash :: k) r = .ok (Spec.Name.subname (slash :: k) (parts r.name).2) := by
+  have h1 : ((slash :: k) == dotConfig) = false := by
+    simp only [dotConfig, beq_eq_false_iff_ne, ne_eq, List.cons.injEq, not_and]; intro h; exact absurd h (by decide)
+  have h2 : ((slash :: k) == dotUnit) = false := by
+    simp only [dotUnit, beq_eq_false_iff_ne, ne_eq, List.cons.injEq, not_and]; intro h; exact absurd h (by decide)
+  have h3 : ((slash :: k) == dotName) = false := by
+    simp only [dotName, beq_eq_false_iff_ne, ne_eq, List.cons.injEq, not_and]; intro h; exact absurd h (by decide)
+  have h4 : ((slash :: k) == dotFullname) = false := by
+    simp only [dotFullname, beq_eq_false_iff_ne, ne_eq, List.cons.injEq, not_and]; intro h; exact absurd h (by decide)
+  have h5 : ((slash :: k) == gomaxprocsKey) = false := by simpa using hk
+  simp only [extract, List.isEmpty_cons, h1, h2, h3, h4, h5, Bool.false_eq_true, if_false,
+    Bool.or_self, List.head?_cons, if_true]
+  simp only [extractNamePart, Bool.false_eq_true, if_false, Spec.Name.subname]
+  cases (parts r.name).2.find? (hasPrefix · (slash :: k ++ [eqc])) <;> simp
+
+/-- **config_key** — a plain key (not starting with '/' and none of the reserved dotted names)
+is the configured value of that key, and empty when the key is absent. -/
+theorem config_key (key : Bytes) (r : ResView) (hne : key ≠ []) (hs : key.head? ≠ some slash)
+    (h1 : key ≠ dotConfig) (h2 : key ≠ dotUnit) (h3 : key ≠ dotName) (h4 : key ≠ dotFullname) :
+    extract key r = .ok (match r.config.find? (·.1 == key) with
+                          | some kv => kv.2
+                          | none => []) := by
+  have e0 : key.isEmpty = false := by cases key <;> simp_all
+  have e1 : (key == dotConfig) = false := by simpa using h1
+  have e2 : (key == dotUnit) = false := by simpa using h2
+  have e3 : (key == dotName) = false := by simpa using h3
+  have e4 : (key == dotFullname) = false := by simpa using h4
+  have e5 : (key.head? == some slash) = false := by simpa using hs
+  simp only [extract, e0, e1, e2, e3, e4, e5, extractConfig, Bool.false_eq_true, if_false, Bool.or_self]
+  cases r.config.find? (·.1 == key) <;> rfl
+
+example : extract [107] { name := [70], config := [([97], [49]), ([107], [120])] } = .ok [120] := by rfl
+example : extract [109] { name := [70], config := [([97], [49])] } = .ok [] := by rfl
+
+end C05
+
+namespace C05
+open Bytes Fmt.Name Proc.Extract
+
+theorem takeUntilSlash_eq (n : Bytes) : takeUntilSlash n = n.takeWhile (· != slash) := by
+  induction n with
+  | nil => rfl
+  | cons c r ih =>
+    unfold takeUntilSlash
+    by_cases hc : c = slash
+    · subst hc; simp
+    · have : (c == slash) = false := by simpa using hc
+      simp [this, hc, ih]
+
+theorem takeWhile_of_no_slash (b : Bytes) (h : hasByte b slash = false) :
+    b.takeWhile (· != slash) = b := by
+  induction b with
+  | nil => rfl
+  | cons c r ih =>
+    simp only [hasByte, List.any_cons, Bool.or_eq_false_iff] at h
+    have hc : c ≠ slash := by simpa using h.1
+    simp only [List.takeWhile_cons, bne_iff_ne, ne_eq, hc, not_false_eq_true, decide_true, if_true]
+    rw [ih (by simpa [hasByte] using h.2)]
+
+theorem takeWhile_append_of_slash (a b : Bytes) (h : hasByte a slash = true) :
+    (a ++ b).takeWhile (· != slash) = a.takeWhile (· != slash) := by
+  induction a with
+  | nil => simp [hasByte] at h
+  | cons c r ih =>
+    by_cases hc : c = slash
+    · subst hc; simp
+    · have h' : hasByte r slash = true := by
+        simp only [hasByte, List.any_cons, Bool.or_eq_true] at h
+        rcases h with h | h
+        · exact absurd (by simpa using h) hc
+        · simpa [hasByte] using h
+      simp only [List.cons_append, List.takeWhile_cons, bne_iff_ne, ne_eq, hc, not_false_eq_true,
+        decide_true, if_true]
+      rw [ih h']
+
+theorem gmpPart_no_slash (g : Bytes) (h : Spec.Name.isGmpPart g = true) : hasByte g slash = false := by
+  cases g with
+  | nil => simp [hasByte]
+  | cons c r =>
+    simp only [Spec.Name.isGmpPart, Bool.and_eq_true, beq_iff_eq, Bool.not_eq_true'] at h
+    obtain ⟨⟨hc, _⟩, hall⟩ := h
+    subst hc
+    simp only [hasByte, List.any_cons, Bool.or_eq_false_iff]
+    refine ⟨by decide, ?_⟩
+    rw [List.any_eq_false]
+    intro x hx
+    have hd := (List.all_eq_true.mp hall) x hx
+    intro hxs
+    have : x = slash := by simpa using hxs
+    subst this
+    exact absurd hd (by decide)
+
+/-- **base_eq_parts_fst** — `Name.Base` reported on its own is the base that `Name.Parts` returns. -/
+theorem base_eq_parts_fst (n : Bytes) : base n = (parts n).1 := by
+  have hp : (parts n).1 = (splitGomaxprocs n).1.takeWhile (· != slash) := by
+    unfold parts
+    generalize splitGomaxprocs n = sg
+    obtain ⟨buf, g⟩ := sg
+    simp only
+    rw [splitSlash_head]
+    simp
+  have hcat := splitGomaxprocs_concat n
+  rw [hp]
+  unfold base
+  have hspec := splitGomaxprocs_eq_spec n
+  cases hsg : splitGomaxprocs n with
+  | mk buf g =>
+    rw [hsg] at hcat hspec
+    simp only at hcat ⊢
+    -- the gomaxprocs part, if any, contains no '/'
+    have hg : hasByte (g.getD []) slash = false := by
+      cases g with
+      | none => simp [hasByte]
+      | some g => exact gmpPart_no_slash g (gmpSplit_gmp n buf g hspec.symm)
+    have hn : hasByte n slash = hasByte buf slash := by
+      rw [← hcat]
+      simp only [hasByte, List.any_append] at hg ⊢
+      simp [hg]
+    rw [hn]
+    by_cases hb : hasByte buf slash = true
+    · simp only [hb, if_true]
+      rw [takeUntilSlash_eq, ← hcat, takeWhile_append_of_slash _ _ hb]
+    · have hb' : hasByte buf slash = false := by simpa using hb
+      simp only [hb', Bool.false_eq_true, if_false]
+      rw [takeWhile_of_no_slash _ hb']
+
+/-- **name_key** — `.name` is the base of the decomposition. -/
+theorem name_key (r : ResView) : extract dotName r = .ok (parts r.name).1 := by
+  rw [name_key_base, base_eq_parts_fst]
+
+theorem head_dash_iff_gmp (l : Bytes) (h : Spec.Name.isSlashSeg l = true ∨ Spec.Name.isGmpPart l = true) :
+    (l.head? == some dash) = Spec.Name.isGmpPart l := by
+  cases l with
+  | nil => simp [Spec.Name.isGmpPart]
+  | cons c t =>
+    rcases h with h | h
+    · simp only [Spec.Name.isSlashSeg, Bool.and_eq_true, beq_iff_eq] at h
+      have hc := h.1; subst hc
+      have e1 : (Spec.Name.slash == dash) = false := by decide
+      have e2 : (Spec.Name.slash == Spec.Name.dash) = false := by decide
+      simp [Spec.Name.isGmpPart, e1, e2]
+    · simp only [Spec.Name.isGmpPart, Bool.and_eq_true, beq_iff_eq] at h
+      have hc := h.1.1; subst hc
+      simp [Spec.Name.isGmpPart, h.1.2, h.2]
+
+/-- **gomaxprocs_key** — `/gomaxprocs` is the trailing N of a `-N` part, or else the value of an
+explicit `/gomaxprocs=` segment, or empty. -/
+theorem gomaxprocs_key (r : ResView) :
+    extract gomaxprocsKey r = .ok (Spec.Name.gomaxprocs (parts r.name).2) := by
+  have hshape := parts_shape r.name
+  have e : extract gomaxprocsKey r = .ok (extractNamePart r.name (gomaxprocsKey ++ [eqc]) true) := by
+    simp [extract, gomaxprocsKey, dotConfig, dotUnit, dotName, dotFullname]
+  rw [e]
+  unfold extractNamePart Spec.Name.gomaxprocs
+  simp only [if_true]
+  unfold Spec.Name.shapeOK at hshape
+  cases hl : (parts r.name).2.getLast? with
+  | none =>
+    have : (parts r.name).2 = [] := by simpa using hl
+    simp [this]
+  | some l =>
+    rw [hl] at hshape
+    simp only [Bool.and_eq_true, Bool.or_eq_true] at hshape
+    have hh := head_dash_iff_gmp l hshape.2.2
+    simp only [hh]
+    by_cases hg : Spec.Name.isGmpPart l = true
+    · simp [hg]
+    · have hg' : Spec.Name.isGmpPart l = false := by simpa using hg
+      simp only [hg', Bool.false_eq_true, if_false, Spec.Name.subname]
+      have : gomaxprocsKey = Spec.Name.gomaxprocsKey := rfl
+      rw [this]
+      cases (parts r.name).2.find? (hasPrefix · (Spec.Name.gomaxprocsKey ++ [eqc])) with
+      | none => rfl
+      | some p => simp [Spec.Name.gomaxprocsKey]
+
+/-- non-vacuity: an irregular name (`a-b/c=1-4`) decomposes as specified -/
+example : parts [97, 45, 98, 47, 99, 61, 49, 45, 52] = ([97, 45, 98], [[47, 99, 61, 49], [45, 52]]) := by decide
 
 end C05
